@@ -21,6 +21,13 @@ func (x *Exec) step(fr *Frame, st *State, ins ssa.Instruction, cont func(*Frame,
 			st.markStack(ref)
 		}
 		p := &PtrV{Ref: ref, Elem: elem}
+		if byteArrayLen(elem) > 0 && in.Referrers() != nil {
+			for _, r := range *in.Referrers() {
+				if _, ok := r.(*ssa.Slice); ok {
+					p.Backed = true
+				}
+			}
+		}
 		x.StoreTo(st, p, x.zeroValue(elem))
 		if typeKey(elem) == "math/big.Int" {
 			x.setBigVal(st, ref, IntConstI(0))
@@ -222,7 +229,7 @@ func (x *Exec) indexAddr(fr *Frame, st *State, in *ssa.IndexAddr) Value {
 		st.Assume(inb)
 		abs := x.nameTerm(st, BVBin("bvadd", s.Off, idx), "ix")
 		if _, isS := et.Underlying().(*types.Struct); isS {
-			return &PtrV{Ref: x.elemRef(s.Base, abs), Elem: et}
+			return &PtrV{Ref: x.elemRefSt(st, s.Base, abs), Elem: et}
 		}
 		return &PtrV{Ref: s.Base, Idx: abs, SlEl: true, Elem: et}
 	case *PtrV:
@@ -230,6 +237,9 @@ func (x *Exec) indexAddr(fr *Frame, st *State, in *ssa.IndexAddr) Value {
 		inb := BVCmp("bvult", idx, BVConstU(uint64(at.Len()), 64))
 		x.emitSafe(fr, st, "index", inb, in.Pos())
 		st.Assume(inb)
+		if s.Backed {
+			return &PtrV{Ref: s.Ref, Idx: idx, SlEl: true, Elem: at.Elem()}
+		}
 		if byteArrayLen(s.Elem) > 0 {
 			return &PtrV{Inner: s, Idx: idx, Elem: at.Elem(), Ref: s.Ref}
 		}
@@ -237,7 +247,7 @@ func (x *Exec) indexAddr(fr *Frame, st *State, in *ssa.IndexAddr) Value {
 			unsupported("IndexAddr on interior array pointer")
 		}
 		if _, isS := at.Elem().Underlying().(*types.Struct); isS {
-			return &PtrV{Ref: x.elemRef(s.Ref, idx), Elem: at.Elem()}
+			return &PtrV{Ref: x.elemRefSt(st, s.Ref, idx), Elem: at.Elem()}
 		}
 		return &PtrV{Ref: s.Ref, Idx: idx, SlEl: true, Elem: at.Elem()}
 	}
@@ -309,6 +319,28 @@ func (x *Exec) sliceOp(fr *Frame, st *State, in *ssa.Slice) Value {
 		return &SliceV{s.Base, x.nameTerm(st, BVBin("bvadd", s.Off, lo), "so"), x.nameTerm(st, BVBin("bvsub", hi, lo), "sl"), x.nameTerm(st, BVBin("bvsub", capLim, lo), "sc")}
 	case *PtrV:
 		// slicing a pointer to array
+		if s.Backed {
+			n := BVConstU(uint64(byteArrayLen(s.Elem)), 64)
+			if lo == nil {
+				lo = zero
+			}
+			if hi == nil {
+				hi = n
+			}
+			ok := And(BVCmp("bvule", lo, hi), BVCmp("bvule", hi, n))
+			x.emitSafe(fr, st, "slice", ok, in.Pos())
+			st.Assume(ok)
+			sl := &SliceV{s.Ref, lo, BVBin("bvsub", hi, lo), BVBin("bvsub", n, lo)}
+			if lo.IsConst && lo.BVal.Sign() == 0 && hi.S == n.S {
+				// the whole array as a slice: its byte sequence is a function of the array value
+				nb := byteArrayLen(s.Elem)
+				arr := x.nameTerm(st, x.Load(st, s).(*Term), "arrval")
+				sq := x.seqOf(st, sl)
+				st.Assume(Eq(sq, x.D.Fun(fmt.Sprintf("seqofarr%d", nb), SSeq, arr)))
+				st.Assume(Eq(x.D.Fun(fmt.Sprintf("arrofseq%d", nb), arr.Sort, sq), arr))
+			}
+			return sl
+		}
 		if at, ok := backedArray(s.Elem); ok {
 			if s.Fld != nil || s.SlEl || s.Inner != nil {
 				unsupported("slice of interior array pointer")
